@@ -187,7 +187,9 @@ impl Hash for ZKey {
 impl PartialEq for ZKey {
     fn eq(&self, _other: &Self) -> bool {
         ctx::callback(Site::Eq);
-        true
+        // (under logic-error keys this lies now and then: the only way to more than one
+        // zero-sized element in a collection)
+        ctx::chaos_eq(true)
     }
 }
 impl Eq for ZKey {}
